@@ -22,6 +22,7 @@
 #include <stdarg.h>
 #include <stdint.h>
 #include <dlfcn.h>
+#include <unistd.h>
 #include "mir.h"
 #include "mir-gen.h"
 
